@@ -301,6 +301,19 @@ def standin_other_gates(tier, seed):
             U = cirq.unitary(cirq.PhaseGradientGate(num_qubits=n, exponent=e))
             if not np.allclose(U, np.diag([np.exp(2j * np.pi * e * k / 2 ** n) for k in range(2 ** n)]), atol=1e-8):
                 bad("PhaseGradientGate differs from diag(exp(2 pi i e k / 2^n))", n=n, exponent=e)
+        # the same gate reached through a power, an inverse or a resolved symbol (the exponent's period is 2^n, not 2)
+        import sympy
+        grad = lambda ex: np.diag([np.exp(2j * np.pi * ex * k / 2 ** n) for k in range(2 ** n)])
+        for e0, t in ((1, -1), (1, 2), (0.5, 3), (1, 2 ** n - 1), (0.25, -5), (1, 0.5), (-0.75, 2)):
+            cases += 1
+            g0 = cirq.PhaseGradientGate(num_qubits=n, exponent=e0)
+            for how, g in (("**", g0 ** t), ("resolve", cirq.resolve_parameters(cirq.PhaseGradientGate(num_qubits=n, exponent=e0 * sympy.Symbol("t")), {"t": t})),
+                           ("resolve 2^(n-1) t", cirq.resolve_parameters(cirq.PhaseGradientGate(num_qubits=n, exponent=2 ** (n - 1) * sympy.Symbol("t")), {"t": e0 * t}))):
+                want = grad(e0 * t) if how != "resolve 2^(n-1) t" else grad(2 ** (n - 1) * e0 * t)
+                if not np.allclose(cirq.unitary(g), want, atol=1e-8):
+                    bad(f"PhaseGradientGate reached through {how} differs from diag(exp(2 pi i e k / 2^n)) at the resulting exponent", n=n, exponent=e0, factor=t)
+            if t == -1 and not np.allclose(cirq.unitary(cirq.inverse(g0)), grad(-e0), atol=1e-8):
+                bad("inverse of PhaseGradientGate differs from the gate at the negated exponent", n=n, exponent=e0)
     for n in (1, 2, 3):
         ang = [rng.uniform(-3, 3) for _ in range(2 ** n)]
         cases += 1
